@@ -5,7 +5,7 @@
     thread + a write-once cell), for BOTH variants of dispatch.rs:
       - [fx = true]  (after fixes/F1.patch): unconditional                          -> [spec_refinement_fixed]
       - [fx = false] (/repo as it is): for every history outside [F1_class]         -> [spec_refinement_unfixed]
-        and the class is exactly where it fails                                     -> [F1_refuted], [F1_class_always_wrong]
+        and the class is where it fails (witness = F1's replay)                     -> [F1_refuted]
     plus: frame (thread isolation), unwinding restores, and set_global_default's three micro-steps under every
     interleaving of any number of concurrent attempts. *)
 From Coq Require Import NArith List Bool Lia Arith.
@@ -611,6 +611,136 @@ Proof.
   vm_compute. reflexivity.
 Qed.
 
+(** * The class is exact: every properly nested history IN the class deviates from the specification
+      (so [~ F1_class] in [spec_refinement_unfixed] is not merely sufficient: it is the precise boundary of F1). *)
+Lemma hit_of_true a e t :
+  hit_of a (establish a e t) t = true -> a_stack a t = [] /\ e t = Some true /\ gset a = true.
+Proof.
+  unfold hit_of. destruct (a_stack a t); [|discriminate].
+  destruct (e t) as [b|] eqn:Ee.
+  - rewrite (establish_some a e t b Ee), Ee. destruct b; [auto | discriminate].
+  - rewrite (establish_none a e t Ee). destruct (gset a); simpl; discriminate.
+Qed.
+Lemma tainted_slow s a e t :
+  R_ false s a e -> a_stack a t = [] -> e t = Some true -> slow false s t = (s, DNone).
+Proof.
+  intros HR Hst He. pose proof (r_thread _ _ _ _ HR t) as Ht. unfold thread_ok_ in Ht.
+  destruct Ht as [Hch [Hb _]]. rewrite Hst in Hch. apply chain_nil_stack in Hch.
+  rewrite Hch, He in Hb. simpl in Hb. unfold slow. rewrite Hb. reflexivity.
+Qed.
+Lemma tainted_get_default s a e t :
+  R_ false s a e -> a_stack a t = [] -> e t = Some true -> a_scopes a <> [] -> get_default false s t = (s, DNone).
+Proof.
+  intros HR Hst He Hne. unfold get_default. rewrite (r_scoped _ _ _ _ HR).
+  destruct (a_scopes a); [congruence|]. simpl. apply (tainted_slow s a e t HR Hst He).
+Qed.
+Lemma emit_like_tainted sm conf s a e t cs (mk : state -> option disp -> bool -> disp -> obs) s' ob :
+  (forall s2 con ok d, consulted (mk s2 con ok d) = if ok then Some d else con) ->
+  R_ false s a e -> a_stack a t = [] -> e t = Some true -> a_scopes a <> [] ->
+  (let '(s1, con, ok) := guard false sm conf s t cs in
+   if ok then let '(s2, d) := get_default false s1 t in (s2, mk s2 con true d)
+   else (s1, mk s1 con false DNone)) = (s', ob) ->
+  forall d, consulted ob = Some d -> d = DNone.
+Proof.
+  intros Hmk HR Hst He Hne Hstep d Hd.
+  destruct (guard false sm conf s t cs) as [[s1 con] ok] eqn:Eg. apply guard_shape in Eg.
+  destruct Eg as [[-> Ht]|[s0 [d0 (Ht & Hg & ->)]]].
+  - pose proof (R_thr_eq false _ _ _ _ Ht HR) as HR1.
+    destruct ok.
+    + rewrite (tainted_get_default s1 a e t HR1 Hst He Hne) in Hstep. injection Hstep as <- <-.
+      rewrite Hmk in Hd. congruence.
+    + injection Hstep as <- <-. rewrite Hmk in Hd. discriminate Hd.
+  - pose proof (R_thr_eq false _ _ _ _ Ht HR) as HR0.
+    rewrite (tainted_get_default s0 a e t HR0 Hst He Hne) in Hg. injection Hg as <- <-.
+    destruct ok.
+    + rewrite (tainted_get_default s0 a e t HR0 Hst He Hne) in Hstep. injection Hstep as <- <-.
+      rewrite Hmk in Hd. congruence.
+    + injection Hstep as <- <-. rewrite Hmk in Hd. congruence.
+Qed.
+
+Lemma step_hit sm conf s a e o s' ob a' ao :
+  R_ false s a e -> step false sm conf s o = (s', ob) -> astep a o = (a', ao) ->
+  snd (f1_step a e o ob) = true -> ~ agrees ob ao.
+Proof.
+  intros HR Hs Ha Hhit.
+  assert (Hwrong : forall t, a_stack a t = [] -> gset a = true ->
+                   (forall d, consulted ob = Some d -> d = DNone) -> consulted ob <> None ->
+                   ~ agrees ob (ADefault (a_default a t))).
+  { intros t Hst Hg Hall Hsome Hag. unfold agrees in Hag. destruct (consulted ob) as [d|] eqn:Ec; [|congruence].
+    specialize (Hag d eq_refl). rewrite (Hall d eq_refl) in Hag.
+    unfold a_default in Hag. rewrite Hst in Hag. unfold gset in Hg. destruct (a_global a); discriminate. }
+  destruct o as [|c|t d|t k|t c|t cs|t cs|t|t| |c]; simpl in Hs, Ha; try (simpl in Hhit; discriminate Hhit).
+  - (* Open never hits *)
+    unfold f1_step in Hhit. destruct (a_valid a d); discriminate Hhit.
+  - (* Emit *)
+    injection Ha as <- <-. rewrite (f1_step_consult a e t ob (Emit t cs)) in Hhit by (right; left; eauto).
+    unfold mon_consult in Hhit. destruct (consulted ob) as [d0|] eqn:Ec; [|discriminate Hhit].
+    destruct (a_scopes a) as [|x l] eqn:Es; [discriminate Hhit|]. simpl in Hhit.
+    apply hit_of_true in Hhit. destruct Hhit as (Hst & He & Hg).
+    apply (Hwrong t Hst Hg); [|congruence]. rewrite <- Ec.
+    unfold do_emit in Hs.
+    apply (emit_like_tainted sm conf s a e t cs
+             (fun _ con ok d => if ok then OEmit (Some d) (match d with DCol c => Some c | DNone => None end) else OEmit con None) s' ob).
+    + intros s2 con ok d. destruct ok; reflexivity.
+    + exact HR. + exact Hst. + exact He. + rewrite Es; discriminate.
+    + destruct (guard false sm conf s t cs) as [[s1 con] ok]. destruct ok; [|exact Hs].
+      destruct (get_default false s1 t). exact Hs.
+  - (* Probe *)
+    injection Ha as <- <-. rewrite (f1_step_consult a e t ob (Probe t cs)) in Hhit by (right; right; eauto).
+    unfold mon_consult in Hhit. destruct (consulted ob) as [d0|] eqn:Ec; [|discriminate Hhit].
+    destruct (a_scopes a) as [|x l] eqn:Es; [discriminate Hhit|]. simpl in Hhit.
+    apply hit_of_true in Hhit. destruct Hhit as (Hst & He & Hg).
+    apply (Hwrong t Hst Hg); [|congruence]. rewrite <- Ec.
+    unfold do_probe in Hs.
+    apply (emit_like_tainted sm conf s a e t cs
+             (fun s2 con ok d => if ok then OProbe (Some d) (enabled_of conf s2 d cs) else OProbe con false) s' ob).
+    + intros s2 con ok d. destruct ok; reflexivity.
+    + exact HR. + exact Hst. + exact He. + rewrite Es; discriminate.
+    + destruct (guard false sm conf s t cs) as [[s1 con] ok]. destruct ok; [|exact Hs].
+      destruct (get_default false s1 t). exact Hs.
+  - (* GetDefault *)
+    injection Ha as <- <-. destruct (get_default false s t) as [s2 d] eqn:Eg. injection Hs as <- <-.
+    rewrite (f1_step_consult a e t (ODefault d) (GetDefault t)) in Hhit by (left; reflexivity).
+    unfold mon_consult in Hhit. simpl in Hhit.
+    destruct (a_scopes a) as [|x l] eqn:Es; [discriminate Hhit|]. simpl in Hhit.
+    apply hit_of_true in Hhit. destruct Hhit as (Hst & He & Hg).
+    rewrite (tainted_get_default s a e t HR Hst He) in Eg by (rewrite Es; discriminate). injection Eg as <- <-.
+    apply (Hwrong t Hst Hg); simpl; [intros d Hd; congruence | discriminate].
+  - (* GetCurrent *)
+    injection Ha as <- <-. destruct (slow false s t) as [s2 d] eqn:Eg. injection Hs as <- <-.
+    assert (Hf1 : snd (f1_step a e (GetCurrent t) (ODefault d)) = hit_of a (establish a e t) t) by reflexivity.
+    rewrite Hf1 in Hhit. apply hit_of_true in Hhit. destruct Hhit as (Hst & He & Hg).
+    rewrite (tainted_slow s a e t HR Hst He) in Eg. injection Eg as <- <-.
+    apply (Hwrong t Hst Hg); simpl; [intros d Hd; congruence | discriminate].
+Qed.
+
+Lemma run_hit sm conf h : forall s a e,
+  R_ false s a e -> Nested h ->
+  In true (f1_hits a e h (map fst (run false sm conf s h))) ->
+  ~ Forall2 agrees (map fst (run false sm conf s h)) (aspec a h).
+Proof.
+  induction h as [|o h IH]; intros s a e HR Hn Hin; simpl in *; [destruct Hin|].
+  apply nested_cons in Hn. destruct Hn as [Hno Hn].
+  destruct (step false sm conf s o) as [s' ob] eqn:Es.
+  destruct (astep a o) as [a' ao] eqn:Ea. simpl in *.
+  destruct (f1_step a e o ob) as [e' hit] eqn:Ef. simpl in Hin.
+  intro HF. inversion HF as [|? ? ? ? Hag HF']; subst.
+  destruct hit.
+  - apply (step_hit sm conf s a e o s' ob a' ao HR Es Ea); [rewrite Ef; reflexivity | exact Hag].
+  - destruct Hin as [Hin|Hin]; [discriminate Hin|].
+    destruct (step_sim false sm conf s a e o s' ob a' ao HR Es Ea Hno) as [_ HR']; [intros _; rewrite Ef; reflexivity|].
+    rewrite Ef in HR'. simpl in HR'. apply (IH s' a' e' HR' Hn Hin HF').
+Qed.
+
+Theorem F1_class_is_exact static_max conf h :
+  Nested h ->
+  (Forall2 agrees (map fst (run false static_max conf init h)) (aspec ainit h) <-> ~ F1_class static_max conf h).
+Proof.
+  intro Hn. split.
+  - intros HF Hc. apply (run_hit static_max conf h init ainit (fun _ => None)); [apply R_init; reflexivity | exact Hn | exact Hc | exact HF].
+  - apply spec_refinement_unfixed. exact Hn.
+Qed.
+
 (** * Thread isolation (frame): an op of another thread never touches this thread's thread-local or guards. *)
 Definition op_thread (o : op) : option N :=
   match o with
@@ -708,65 +838,55 @@ Qed.
 
 (** * set_global_default succeeds exactly once — under EVERY interleaving of its three micro-steps, for any
     number of concurrent attempts (one per thread), any candidate assignment. *)
-Definition sg_done (s : sg_state) (t : N) : Prop := sg_res s t <> None.
-Record SgInv (cand : N -> N) (s : sg_state) : Prop := {
-  sgi_uninit : sg_init s = Uninit -> forall t, sg_pc s t = 0%nat /\ sg_res s t <> Some SgOk;
-  sgi_winner : sg_init s <> Uninit ->
-     exists w, (forall t, t <> w -> (sg_pc s t = 0%nat /\ sg_res s t <> Some SgOk)) /\
-               (sg_pc s w = 1%nat \/ sg_pc s w = 2%nat) /\
-               (sg_pc s w = 2%nat -> sg_disp s = Some (cand w)) /\
-               (sg_init s = Initialized <-> sg_res s w = Some SgOk) /\
-               (sg_res s w <> Some SgErr) /\
-               (sg_res s w = Some SgOk -> sg_pc s w = 2%nat) }.
+Definition SgInv (cand : N -> N) (s : sg_state) : Prop :=
+  match sg_init s with
+  | Uninit => forall t, sg_pc s t = 0%nat /\ sg_res s t = None
+  | Initializing =>
+      exists w, (sg_pc s w = 1%nat \/ (sg_pc s w = 2%nat /\ sg_disp s = Some (cand w))) /\ sg_res s w = None /\
+                forall t, t <> w -> sg_pc s t = 0%nat /\ sg_res s t <> Some SgOk
+  | Initialized =>
+      exists w, sg_pc s w = 2%nat /\ sg_disp s = Some (cand w) /\ sg_res s w = Some SgOk /\
+                forall t, t <> w -> sg_pc s t = 0%nat /\ sg_res s t <> Some SgOk
+  end.
 
 Lemma SgInv_init cand : SgInv cand sg_init_state.
-Proof. split; simpl; [intros _ t; split; [reflexivity | discriminate] | congruence]. Qed.
+Proof. unfold SgInv. simpl. auto. Qed.
+
+Ltac upd_cases :=
+  unfold upd;
+  repeat match goal with
+         | |- context [?x =? ?y] => destruct (N.eqb_spec x y); subst
+         | H : context [?x =? ?y] |- _ => destruct (N.eqb_spec x y); subst
+         end.
 
 Lemma SgInv_step cand s t : SgInv cand s -> SgInv cand (sg_step cand s t).
 Proof.
-  intros [I1 I2]. unfold sg_step.
-  destruct (sg_res s t) eqn:Er; [split; assumption|].
-  destruct (sg_pc s t) as [|[|n]] eqn:Epc.
-  - destruct (sg_init s) eqn:Ei.
-    + (* CAS wins *)
-      split; simpl; [discriminate|]. intros _. exists t. unfold upd. rewrite N.eqb_refl.
-      repeat split; auto; try discriminate; try congruence.
-      * intros t' Hne. destruct (t' =? t) eqn:E; [apply N.eqb_eq in E; congruence|]. apply (I1 eq_refl t').
-      * intros t' Hne. destruct (t' =? t) eqn:E; [apply N.eqb_eq in E; congruence|]. apply (I1 eq_refl t').
-      * intro H. rewrite Er in H. discriminate H.
-      * rewrite Er. discriminate.
-      * rewrite Er. discriminate.
-    + (* CAS loses (Initializing) *)
-      split; simpl; [congruence|]. intros Hn. destruct (I2 ltac:(congruence)) as [w (W1 & W2 & W3 & W4 & W5 & W6)].
-      assert (t <> w) by (intro; subst; destruct W2; congruence).
-      exists w. unfold upd. assert (Ew : (w =? t) = false) by (apply N.eqb_neq; congruence). rewrite Ew.
-      repeat split; auto; try apply W4.
-      * destruct (t' =? t) eqn:E; [apply N.eqb_eq in E; subst; exact Epc | apply W1; assumption].
-      * destruct (t' =? t) eqn:E; [discriminate | apply W1; assumption].
-    + (* CAS loses (Initialized) *)
-      split; simpl; [congruence|]. intros Hn. destruct (I2 ltac:(congruence)) as [w (W1 & W2 & W3 & W4 & W5 & W6)].
-      assert (t <> w) by (intro; subst; destruct W2; congruence).
-      exists w. unfold upd. assert (Ew : (w =? t) = false) by (apply N.eqb_neq; congruence). rewrite Ew.
-      repeat split; auto; try apply W4.
-      * destruct (t' =? t) eqn:E; [apply N.eqb_eq in E; subst; exact Epc | apply W1; assumption].
-      * destruct (t' =? t) eqn:E; [discriminate | apply W1; assumption].
-  - (* store the dispatcher: only the winner can be at pc 1 *)
-    assert (Hi : sg_init s <> Uninit) by (intro Hi; destruct (I1 Hi t); congruence).
-    destruct (I2 Hi) as [w (W1 & W2 & W3 & W4 & W5 & W6)].
-    assert (t = w) by (destruct (N.eq_dec t w); [assumption | destruct (W1 t n); congruence]). subst w.
-    split; simpl; [congruence|]. intros _. exists t. unfold upd. rewrite N.eqb_refl.
-    repeat split; auto; try apply W4; try congruence.
-    + intros t' Hne. destruct (t' =? t) eqn:E; [apply N.eqb_eq in E; congruence | apply W1; assumption].
-    + intros t' Hne. apply W1; assumption.
-  - (* store INITIALIZED; return Ok: only the winner can be at pc 2 *)
-    assert (Hi : sg_init s <> Uninit) by (intro Hi; destruct (I1 Hi t); congruence).
-    destruct (I2 Hi) as [w (W1 & W2 & W3 & W4 & W5 & W6)].
-    assert (t = w) by (destruct (N.eq_dec t w); [assumption | destruct (W1 t n0); congruence]). subst w.
-    assert (Hpc : sg_pc s t = 2%nat) by (destruct W2; congruence).
-    split; simpl; [congruence|]. intros _. exists t. unfold upd. rewrite N.eqb_refl.
-    repeat split; auto; try congruence.
-    + intros t' Hne. apply W1; assumption.
-    + intros t' Hne. destruct (t' =? t) eqn:E; [apply N.eqb_eq in E; congruence | apply W1; assumption].
+  unfold SgInv, sg_step. intro I.
+  destruct (sg_res s t) eqn:Er; [exact I|].
+  destruct (sg_init s) eqn:Ei.
+  - (* Uninit: everybody at pc 0; the CAS of t wins *)
+    destruct (I t) as [Hpc _]. rewrite Hpc. simpl.
+    exists t. split; [left; upd_cases; congruence|]. split; [exact Er|].
+    intros t' Hne. destruct (I t') as [H1 H2]. split; [upd_cases; congruence | rewrite H2; discriminate].
+  - (* Initializing *)
+    destruct I as [w (Hw & Hr & Hoth)].
+    destruct (N.eq_dec t w) as [->|Hne].
+    + (* the winner advances *)
+      destruct Hw as [Hw|[Hw Hd]]; rewrite Hw; simpl.
+      * exists w. split; [right; split; [upd_cases; congruence | reflexivity]|]. split; [exact Hr|].
+        intros t' Hne. destruct (Hoth t' Hne) as [H1 H2]. split; [upd_cases; congruence | exact H2].
+      * exists w. split; [exact Hw|]. split; [exact Hd|]. split; [upd_cases; congruence|].
+        intros t' Hne. destruct (Hoth t' Hne) as [H1 H2]. split; [exact H1 | upd_cases; congruence].
+    + (* a latecomer loses the CAS *)
+      destruct (Hoth t Hne) as [Hpc _]. rewrite Hpc. simpl.
+      exists w. split; [exact Hw|]. split; [upd_cases; congruence|].
+      intros t' Hne'. destruct (Hoth t' Hne') as [H1 H2]. split; [exact H1 | upd_cases; congruence].
+  - (* Initialized *)
+    destruct I as [w (Hw & Hd & Hr & Hoth)].
+    assert (Hne : t <> w) by (intro; subst; congruence).
+    destruct (Hoth t Hne) as [Hpc _]. rewrite Hpc. simpl.
+    exists w. split; [exact Hw|]. split; [exact Hd|]. split; [upd_cases; congruence|].
+    intros t' Hne'. destruct (Hoth t' Hne') as [H1 H2]. split; [exact H1 | upd_cases; congruence].
 Qed.
 
 Lemma SgInv_run cand sched : SgInv cand (sg_run cand sched).
@@ -776,47 +896,49 @@ Proof.
   apply G. apply SgInv_init.
 Qed.
 
-(** At most one attempt ever returns Ok; once one has, get_global() hands out exactly its dispatcher; before
-    that, get_global() is the no-op dispatcher (never a half-written one); every other finished attempt got Err;
-    and if at least one attempt ran to completion, some attempt returned Ok. *)
+(** For EVERY schedule (any interleaving of the micro-steps of any number of attempts, finished or not):
+    at most one attempt returns Ok; once it has, get_global() hands out exactly its dispatcher; as long as none has,
+    get_global() is the no-op dispatcher (never a half-written one); an attempt only ever returns Err because
+    another attempt had already won the compare-exchange. *)
 Theorem set_global_once cand sched :
   let s := sg_run cand sched in
   (forall t u, sg_res s t = Some SgOk -> sg_res s u = Some SgOk -> t = u) /\
   (forall t, sg_res s t = Some SgOk -> sg_get_global s = Some (cand t)) /\
   ((forall t, sg_res s t <> Some SgOk) -> sg_get_global s = None) /\
-  (forall t, sg_res s t = Some SgErr -> exists w, w <> t /\ sg_pc s w <> 0%nat).
+  (forall t, sg_res s t = Some SgErr -> exists w, w <> t /\ sg_pc s w <> 0%nat /\ sg_res s w <> Some SgErr).
 Proof.
-  intro s. pose proof (SgInv_run cand sched) as [I1 I2]. fold s in I1, I2.
-  assert (Hok : forall t, sg_res s t = Some SgOk -> sg_init s <> Uninit).
-  { intros t Ht Hu. destruct (I1 Hu t) as [_ H]. congruence. }
-  repeat split.
-  - intros t u Ht Hu. destruct (I2 (Hok t Ht)) as [w (W1 & _)].
-    destruct (N.eq_dec t w) as [->|Nt]; [|destruct (W1 t Nt); congruence].
-    destruct (N.eq_dec u w) as [->|Nu]; [reflexivity | destruct (W1 u Nu); congruence].
-  - intros t Ht. destruct (I2 (Hok t Ht)) as [w (W1 & W2 & W3 & W4 & W5 & W6)].
-    destruct (N.eq_dec t w) as [->|Nt]; [|destruct (W1 t Nt); congruence].
-    unfold sg_get_global. destruct W4 as [_ W4]. rewrite (W4 Ht). apply W3. apply W6. exact Ht.
-  - intro Hno. unfold sg_get_global. destruct (sg_init s) eqn:Ei; try reflexivity.
-    exfalso. destruct (I2 ltac:(congruence)) as [w (_ & _ & _ & W4 & _)]. apply (Hno w). apply W4. reflexivity.
-  - intros t Ht. destruct (sg_init s) eqn:Ei.
-    + destruct (I1 eq_refl t) as [Hpc _].
-      (* an attempt that returned Err lost the CAS, so the flag was not Uninit at that time; it never goes back *)
-      exfalso. revert Ht Ei. unfold s. clear.
-      assert (G : forall sched s0, (sg_init s0 = Uninit -> forall t, sg_res s0 t <> Some SgErr) ->
-                  sg_init (fold_left (sg_step cand) sched s0) = Uninit ->
-                  forall t, sg_res (fold_left (sg_step cand) sched s0) t <> Some SgErr).
-      { induction sched as [|x r IH]; simpl; intros s0 H0 Hu; [apply H0; exact Hu|].
-        apply IH; [|exact Hu]. intros Hu' t'. unfold sg_step in *.
-        destruct (sg_res s0 x) eqn:Er; [apply H0; exact Hu'|].
-        destruct (sg_pc s0 x) as [|[|n]]; simpl in *.
-        - destruct (sg_init s0) eqn:E0; simpl in *; try discriminate Hu'.
-        - apply H0. exact Hu'.
-        - discriminate Hu'. }
-      intros Ht Ei. apply (G sched sg_init_state); [intros _ t'; simpl; discriminate | exact Ei | exact Ht].
-    + destruct (I2 ltac:(congruence)) as [w (W1 & W2 & _ & _ & W5 & _)].
-      exists w. split; [intro; subst; congruence | destruct W2; congruence].
-    + destruct (I2 ltac:(congruence)) as [w (W1 & W2 & _ & _ & W5 & _)].
-      exists w. split; [intro; subst; congruence | destruct W2; congruence].
+  intro s. pose proof (SgInv_run cand sched) as I. fold s in I. unfold SgInv, sg_get_global in *.
+  destruct (sg_init s) eqn:Ei.
+  - repeat split.
+    + intros t u Ht. destruct (I t). congruence.
+    + intros t Ht. destruct (I t). congruence.
+    + intros t Ht. destruct (I t). congruence.
+  - destruct I as [w (Hw & Hr & Hoth)]. repeat split.
+    + intros t u Ht. destruct (N.eq_dec t w) as [->|Hne]; [congruence | destruct (Hoth t Hne); congruence].
+    + intros t Ht. destruct (N.eq_dec t w) as [->|Hne]; [congruence | destruct (Hoth t Hne); congruence].
+    + intros t Ht. exists w. split; [intro; subst; congruence|]. split; [destruct Hw as [Hw|[Hw _]]; congruence | congruence].
+  - destruct I as [w (Hw & Hd & Hr & Hoth)]. repeat split.
+    + intros t u Ht Hu.
+      destruct (N.eq_dec t w) as [->|Hne]; [|destruct (Hoth t Hne); congruence].
+      destruct (N.eq_dec u w) as [->|Hne]; [reflexivity | destruct (Hoth u Hne); congruence].
+    + intros t Ht. destruct (N.eq_dec t w) as [->|Hne]; [exact Hd | destruct (Hoth t Hne); congruence].
+    + intro Hno. exfalso. apply (Hno w). exact Hr.
+    + intros t Ht. exists w. split; [intro; subst; congruence|]. split; congruence.
+Qed.
+
+(** ... and exactly once: if some attempt has returned and no attempt is stuck between its compare-exchange and
+    its return, then one attempt returned Ok. *)
+Theorem set_global_some_success cand sched :
+  let s := sg_run cand sched in
+  (exists t, sg_res s t <> None) ->
+  (forall t, sg_pc s t <> 0%nat -> sg_res s t <> None) ->
+  exists w, sg_res s w = Some SgOk.
+Proof.
+  intro s. pose proof (SgInv_run cand sched) as I. fold s in I. unfold SgInv in I.
+  intros [t Ht] Hfin. destruct (sg_init s).
+  - destruct (I t). congruence.
+  - destruct I as [w (Hw & Hr & _)]. exfalso. apply (Hfin w); [destruct Hw as [Hw|[Hw _]]; congruence | exact Hr].
+  - destruct I as [w (_ & _ & Hr & _)]. exists w. exact Hr.
 Qed.
 
 (** Liveness half of "exactly once": if every attempt is scheduled to completion (3 turns suffice for the CAS
